@@ -101,7 +101,7 @@ func addLifeStuff(r rng, p *sdl.Program) {
 		if r.p(0.15) {
 			base := len(p.Instances)
 			for z := 0; z < r.n(2, 3); z++ {
-				t := &sdl.Type{Name: fmt.Sprintf("%sZR%d", p.ID, z), Zero: true, Role: "runner"}
+				t := &sdl.Type{Name: fmt.Sprintf("%sZR%d", p.ID, z), Zero: true, Role: "runner", Scalar: r.p(0.4)}
 				p.Types = append(p.Types, t)
 				p.Instances = append(p.Instances, &sdl.Instance{ID: fmt.Sprintf("c%d", base+z), Type: t.Name})
 			}
@@ -178,7 +178,7 @@ func genClose(r rng, seed uint64, id string) *sdl.Program {
 	// zero-size closers (distinct field-less types may share one address)
 	if r.p(0.2) {
 		for z := 0; z < r.n(2, 3); z++ {
-			t := &sdl.Type{Name: fmt.Sprintf("%sZC%d", id, z), Zero: true, Role: "closer"}
+			t := &sdl.Type{Name: fmt.Sprintf("%sZC%d", id, z), Zero: true, Role: "closer", Scalar: r.p(0.4)}
 			p.Types = append(p.Types, t)
 			p.Instances = append(p.Instances, &sdl.Instance{ID: fmt.Sprintf("c%d", ni), Type: t.Name})
 			ni++
